@@ -12,6 +12,7 @@ import Driver.C20
 import Driver.C04
 import Driver.C18
 import Driver.C16
+import Driver.C14
 import Driver.C02
 import Driver.C15
 namespace Driver
@@ -47,10 +48,13 @@ def dispatch (op : String) : Option Handler :=
   | "optne" => some C02.optne
   | "conv3" => some C02.conv3
   | "tm" => some C16.tm
+  | "dsl" => some C14.dsl
+  | "dslwhy" => some C14.dslwhy
   | "tmrt" => some C16.tmrt
   | "fn" => some C18.noCrash
   | "rdz" => some C18.noCrash
   | "dslr" => some C18.noCrash
+  | "recur" => some C18.recur
   | "thenpipe" => some C04.thenpipe
   | "ctxs" => some C04.ctxs
   | "re" => some Re.re
